@@ -416,8 +416,17 @@ func runC07(c *Ctx) {
 					if core.FieldVar(info, a.Lhs[0]) == fInputs && se.Low == nil && se.High != nil && isIdentOf(info, se.High, np) {
 						okR = true
 					}
-					if id, isID := a.Lhs[0].(*ast.Ident); isID && info.ObjectOf(id) == paramAt(f, 0) && se.High == nil && se.Low != nil && isIdentOf(info, se.Low, np) {
-						okP = true
+					// the rest of the prompt: prompt[numPast:], assigned back to the parameter or to a local that is returned
+					if id, isID := a.Lhs[0].(*ast.Ident); isID && isIdentOf(info, se.X, paramAt(f, 0)) && se.High == nil && se.Low != nil && isIdentOf(info, se.Low, np) {
+						lhs := info.ObjectOf(id)
+						if lhs == paramAt(f, 0) {
+							okP = true
+						}
+						for _, ex := range g.Returns() {
+							if ex.Return != nil && len(ex.Return.Results) >= 2 && isIdentOf(info, ex.Return.Results[1], lhs) {
+								okP = true
+							}
+						}
 					}
 					return true
 				})
